@@ -283,6 +283,36 @@ thread_local! {
 
 const INF: Duration = Duration::from_secs(86_400 * 365);
 
+/// Drops its content normally, leaks it when the thread is unwinding from a panic.
+struct LeakOnPanic<T>(std::mem::ManuallyDrop<T>);
+
+impl<T> LeakOnPanic<T> {
+    fn new(v: T) -> Self {
+        LeakOnPanic(std::mem::ManuallyDrop::new(v))
+    }
+}
+
+impl<T> std::ops::Deref for LeakOnPanic<T> {
+    type Target = T;
+    fn deref(&self) -> &T {
+        &self.0
+    }
+}
+
+impl<T> std::ops::DerefMut for LeakOnPanic<T> {
+    fn deref_mut(&mut self) -> &mut T {
+        &mut self.0
+    }
+}
+
+impl<T> Drop for LeakOnPanic<T> {
+    fn drop(&mut self) {
+        if !std::thread::panicking() {
+            unsafe { std::mem::ManuallyDrop::drop(&mut self.0) }
+        }
+    }
+}
+
 fn make_cb(w: &W, kind: Cb, done: Ev) -> impl FnOnce() + Send + 'static {
     let w = w.clone();
     move || {
@@ -424,9 +454,14 @@ fn run_inner(case: &Case) -> Trace {
             BatchFut { slot, w: w.clone() }
         }
     };
-    let mut exec: Option<Pin<Box<dyn Future<Output = ()>>>> = Some(Box::pin(receiver.exec(wait, on_batch)));
+    // If the code under test panics out of a sender call (e.g. on a poisoned state mutex), dropping the
+    // receiver, the tasks or the last sender while unwinding would panic again inside their `Drop` and abort
+    // the whole process: leak them instead, so that the panic reaches the engine as an ordinary failure of
+    // this case and can be shrunk.
+    let _keep_world_when_panicking = LeakOnPanic::new(w.clone());
+    let mut exec = LeakOnPanic::new(Some(Box::pin(receiver.exec(wait, on_batch)) as Pin<Box<dyn Future<Output = ()>>>));
     let waker = noop_waker();
-    let mut tasks: Vec<Task> = Vec::new();
+    let mut tasks: LeakOnPanic<Vec<Task>> = LeakOnPanic::new(Vec::new());
     let mut exec_done = false;
 
     let cur_sender = |w: &W| w.lock().unwrap().sender.clone();
@@ -710,6 +745,7 @@ fn run_inner(case: &Case) -> Trace {
     }
     drop(exec);
     drop(tasks);
+    drop(_keep_world_when_panicking);
     let log = std::mem::take(&mut w.lock().unwrap().log);
     Trace { log, cap, stuck, exec_done }
 }
